@@ -30,9 +30,13 @@ def make_df(rows, start=0, dtype="float"):
     return pd.DataFrame(data, index=pd.RangeIndex(start, start + len(rows)), columns=COLS)
 
 
-def example_df(dtype="float"):
-    """non-empty example (never fed to the stream); used only by streamz to compute output types"""
-    return make_df([[1, 2, 1]], start=-1, dtype=dtype)
+def example_df(dtype="float", kind="row"):
+    """the `example` given to the streaming DataFrame (never fed to the stream; streamz uses it to compute
+    output types).  kind "row": one row that passes the filters used here; "empty": no rows, as in streamz' own
+    tests (`example=pd.DataFrame({'name': [], 'amount': []})`)."""
+    if kind == "empty":
+        return make_df([], start=0, dtype=dtype)
+    return make_df([[9, 9, 1]], start=-1, dtype=dtype)
 
 
 def split_rows(rows, sizes):
